@@ -6,6 +6,10 @@ pub mod common;
 pub mod c01;
 pub mod dd;
 pub mod ddprops;
+pub mod par;
+pub mod c03;
+pub mod c05;
+pub mod solverprops;
 pub mod c10;
 pub mod c11;
 pub mod c17;
@@ -14,6 +18,14 @@ pub mod c18;
 pub fn run(shard: &Shard) -> i32 {
     match shard.check.as_str() {
         "c01" => c01::run(shard),
+        "c02" => solverprops::run_c02(shard),
+        "c09" => solverprops::run_c09(shard),
+        "c14" => solverprops::run_c14(shard),
+        "c15" => solverprops::run_c15(shard),
+        "c03" => c03::run_c03(shard),
+        "c04" => c03::run_c04(shard),
+        "c05" => c05::run_c05(shard),
+        "c19" => c05::run_c19(shard),
         "c06" => ddprops::c06(shard),
         "c07" => ddprops::c07(shard),
         "c08" => ddprops::c08(shard),
